@@ -24,6 +24,7 @@ def check(ctx):
     F = ctx.F
     obscure.check_sinks(ctx, 'C02.2')
     obscure.check_obscure_region(ctx, 'C02.2/action')
+    obscure.check_elide_primitive(ctx, 'C02.2/action')
     obscure.check_subject_encrypt_node(ctx, 'C02.3')
     obscure.check_rebuild(ctx, 'C02.4', 'C02.4/rec')
     # ---- C02.5 compositions
